@@ -6,7 +6,9 @@ import json
 
 from props import mgh_common as mg
 from sim import simrandom
-from sim.sched import InvalidCase
+import numpy as np
+
+from sim.sched import InvalidCase, Violation
 
 ID = "C05"
 TITLE = "mGH estimates always bracket the true modified Gromov-Hausdorff distance"
@@ -109,7 +111,7 @@ def gen_case(rng, tier):
         if rng.random() < 0.5:
             G, H = H, G
     k = rng.randint(2, 4) if max_n <= 30 else 1
-    return {
+    case_ = {
         "inputs": {"G": G, "H": H, "iso": iso, "mso": list(rng.choice(mg.MSO_CHOICES)),
                    "repG": {"fmt": rng.choice(("csr", "dense", "list")), "fill": rng.choice(mg.FILLS), "dtype": "int"},
                    "repH": {"fmt": rng.choice(("csr", "dense", "list")), "fill": rng.choice(mg.FILLS), "dtype": "int"}},
@@ -117,6 +119,10 @@ def gen_case(rng, tier):
                    "use_default_mso": rng.random() < 0.3, "size_free_only": big},
         "ops": [],
     }
+    if max(G["n"], H["n"]) <= 8 and rng.random() < 0.1:
+        case_["config"]["concurrent"] = rng.randint(2, 3)
+        case_["config"]["p_switch"] = rng.choice((2, 4, 8))
+    return case_
 
 
 def run_case(case, sched):
@@ -161,6 +167,30 @@ def run_case(case, sched):
         if exact2 is not None:
             loose_lb += float(lb) < 0.5 * exact2
             loose_ub += float(ub) > 0.5 * exact2
+    # ---- concurrent callers: several threads of one process estimate at once; whichever way their draws from the
+    # one global RNG interleave, every caller's pair of bounds must bracket the true distance
+    nconc = cfg.get("concurrent")
+    cstats = {}
+    if nconc:
+        if not isinstance(nconc, int) or not 2 <= nconc <= 4 or max(G["n"], H["n"]) > 12:
+            raise InvalidCase("concurrent")
+        import warnings
+        from sim import callers
+        gh = mg.sut()
+        kw_ = {} if cfg.get("use_default_mso") else {"mapping_sample_size_order": np.array(mso, dtype=float)}
+        cargs = [(mg.materialize(G, inp["repG"]), mg.materialize(H, inp["repH"])) for _ in range(nconc)]
+        e0 = evs[0]
+        with simrandom.rng_scope(sched, e0["mode"], int(e0.get("k", 0))):
+            with warnings.catch_warnings(record=True):
+                warnings.simplefilter("always")
+                outs = callers.run_concurrent(sched, [(lambda a=a: gh(*a, **kw_)) for a in cargs],
+                                              int(cfg.get("p_switch", 4)), cstats)
+        for ci, (st_, v_) in enumerate(outs):
+            if st_ != "ok":
+                raise Violation("no-exception", "gromov_hausdorff(concurrent)", type(v_).__name__,
+                                "caller #%d of %d concurrent callers: gromov_hausdorff raised %s: %s" % (ci, nconc, type(v_).__name__, str(v_)[:300]))
+            mg.check_bracket(float(v_[0]), float(v_[1]), exact2, "gromov_hausdorff(concurrent)", iso,
+                             "(caller #%d of %d concurrent callers sharing the global RNG, mode %s)" % (ci, nconc, e0["mode"]))
     trivial2 = None
     if exact2 is not None:
         trivial2 = max(abs(dG - dH), int(G["n"] != H["n"]))
@@ -178,12 +208,17 @@ def run_case(case, sched):
             "single_mapping_sampled": int(mso == [0.0, 0.0] and not cfg.get("use_default_mso")),
             "true_distance_positive": int(bool(exact2)), "vertices_ge_8": int(max(G["n"], H["n"]) >= 8),
         },
-        "faults": {},
+        "faults": {"concurrent_batches": cstats.get("concurrent_batches", 0), "thread_switches": cstats.get("thread_switches", 0),
+                   "thread_preemption_points": cstats.get("preemption_points", 0)},
     }
 
 
 def shrink_candidates(case):
     from sim import shrink as shr
+    if case["config"].get("concurrent"):
+        c = copy.deepcopy(case)
+        del c["config"]["concurrent"]
+        yield c
     evs = case["config"]["evals"]
     for idx in shr.list_deletions(evs, min_len=1):
         c = copy.deepcopy(case)
